@@ -41,8 +41,35 @@ package magic
 //@ func magic.Marc
 //@   loop 1 unroll
 
+// --- C19: zip-based formats ------------------------------------------------------------------
+//@ func magic.(*readBuf).advance
+//@   assigns *b
+//@   ensures [C19_advance_ok] result ==> 0 <= n && n <= old(len(*b)) && isSuffixView(*b, old(*b)) && len(*b) == old(len(*b)) - n
+//@   ensures [C19_advance_no] !result ==> sameSlice(*b, old(*b))
+//@   ensures [C19_advance_iff] result == (0 <= n && n <= old(len(*b)))
+
+// local file header signature at offset h
+//@ spec pkAt(m, h) = m[h] == 'P' && m[h+1] == 'K' && m[h+2] == 3 && m[h+3] == 4
+
+// Layout of a zip file as a standard writer emits it (trusted format predicate): local file
+// headers are exactly the PK\3\4 occurrences that the walk meets; csz is the compressed size
+// recorded in the first header. hop(a, b): header b is the first signature at least gap bytes
+// after header a.
+//@ spec csz(m) = m[18] + 256 * m[19] + 65536 * m[20] + 16777216 * m[21]
+//@ spec noPK(m, lo, hi) = forall k :: lo <= k && k < hi ==> !pkAt(m, k)
+//@ spec skipOK(m, mso) = !mso || hasPrefix(m[30:], "[Content_Types].xml") || hasPrefix(m[30:], "_rels/.rels") || hasPrefix(m[30:], "docProps") || hasPrefix(m[30:], "customXml") || hasPrefix(m[30:], "[trash]")
+//@ spec firstHop(m, h2) = len(m) >= 30 && csz(m) + 49 < 4294967296 && csz(m) + 49 <= h2 && noPK(m, csz(m) + 49, h2) && pkAt(m, h2) && h2 + 30 <= len(m)
+//@ spec hop(m, a, b, gap) = a + gap <= b && noPK(m, a + gap, b) && pkAt(m, b) && b + 30 <= len(m)
+//@ spec nameIs(m, h, sig) = hasPrefix(m[h+30:], sig)
+//@ spec isBytesM(m) = forall i :: 0 <= m[i] && m[i] <= 255
+
+// zip_hdr: ghost, the offset of the local file header whose name field the walk is looking at
 //@ func magic.zipContains
 //@   loop 2 unroll
+//@   ghost return: zip_hdr = off(b) - off(raw) - 30
+//@   ensures [C19_witness] result ==> 0 <= zip_hdr && zip_hdr + 30 + len(sig) <= len(raw) && (zip_hdr == 0 || pkAt(raw, zip_hdr)) && hasPrefix(raw[zip_hdr+30:], sig)
+//@   ensures [C19_layout1] len(raw) >= 30 && nameIs(raw, 0, sig) ==> result
+//@   ensures [C19_mso_first] result && msoCheck ==> hasPrefix(raw[30:], sig) || hasPrefix(raw[30:], "[Content_Types].xml") || hasPrefix(raw[30:], "_rels/.rels") || hasPrefix(raw[30:], "docProps") || hasPrefix(raw[30:], "customXml") || hasPrefix(raw[30:], "[trash]")
 
 //@ func magic.offset$1
 //@   inline
